@@ -8,6 +8,8 @@ import (
 	"math/big"
 	"time"
 	"unsafe"
+	cjson "verif/internal/collide/json"
+	ctime "verif/internal/collide/time"
 
 	"github.com/ozanh/ugo"
 	ufmt "github.com/ozanh/ugo/stdlib/fmt"
@@ -171,6 +173,16 @@ func c20unsupported() []c20lab {
 	sl := []any{int64(1)}
 	mp := map[string]any{"a": int64(1)}
 	return []c20lab{
+		// types from OTHER packages that print like supported ones ("time.Time", "time.Duration", "json.RawMessage" ...)
+		{"collide time.Time", ctime.Time{X: 1}},
+		{"collide *time.Time", &ctime.Time{X: 1}},
+		{"collide time.Duration", ctime.Duration(5)},
+		{"collide *time.Location", &ctime.Location{Name: "x"}},
+		{"collide time.Location", ctime.Location{Name: "x"}},
+		{"collide time.Month", ctime.Month(3)},
+		{"collide json.RawMessage", cjson.RawMessage("1")},
+		{"collide json.Number", cjson.Number("1")},
+		{"stdlib/time.Time struct value (not the pointer object)", utime.Time{}},
 		{"struct{}", struct{}{}},
 		{"struct", c20S{1, "x"}},
 		{"*struct", &c20S{1, "x"}},
